@@ -215,14 +215,15 @@ func (s *scope) copy() scope {
 
 // Model is the reference state. Frames are deep copies of the scope.
 type Model struct {
-	cur       scope
-	frames    []scope
-	committed World // world at the start of the current transaction
-	logs      []LogRec
-	rules     int
-	thash     common.Hash
-	txIndex   int
-	balIndex  uint32
+	cur        scope
+	frames     []scope
+	committed  World // world at the start of the current transaction
+	blockStart World // world at the start of the current block
+	logs       []LogRec
+	rules      int
+	thash      common.Hash
+	txIndex    int
+	balIndex   uint32
 
 	// EIP-7928 access tracking of the current transaction (not undone by reverts).
 	track     bool
@@ -303,6 +304,7 @@ func (m *Model) BeginBlock(rules int) {
 	m.cur.dirty = map[common.Address]bool{}
 	m.frames = nil
 	m.committed = m.cur.world.copy()
+	m.blockStart = m.committed
 	m.track = false
 }
 
